@@ -408,3 +408,95 @@ func BurstTrial(p *sut.Proc, n int) (f *check.Finding, inconclusive string) {
 	}
 	return nil, ""
 }
+
+// FloodTrial: a connection (member of a session when joined) pipelines
+// `before` valid requests, one request that ends the connection (an entity add
+// while in no session / a frame without timestamp when joined) and `after`
+// more valid requests, reading all the while. The receiver goroutine runs
+// ahead of the main loop, so the per-connection request queue (256) is full
+// when the main loop meets the fatal request and stops consuming. The server
+// must close the connection and websocket.Handle must return.
+func FloodTrial(p *sut.Proc, before, after int, joined bool) (f *check.Finding, inconclusive string) {
+	t := Trial{Off: Offence{Name: fmt.Sprintf("flood/%d-valid-then-fatal-then-%d-valid", before, after)}, Phase: map[bool]string{true: "joined", false: "unjoined"}[joined]}
+	defer func() {
+		if r := recover(); r != nil {
+			if !p.Alive() {
+				f = finding(t, "process/exited", "the server process ended: %s\n%s", p.ExitInfo(), p.CrashHead(4000))
+				return
+			}
+			inconclusive = fmt.Sprint(r)
+		}
+	}()
+	o := scen.MustDial(p, "vod")
+	defer o.Close()
+	o.Timeout = 8 * time.Second
+	var mates []*scen.C
+	defer func() {
+		for _, m := range mates {
+			m.Close()
+		}
+	}()
+	if joined {
+		if _, _, err := o.Join(""); err != nil {
+			panic(err)
+		}
+		// four more members: every valid request of the flood is a 10 KiB custom
+		// message relayed to them, so that the main loop is slower than the receiver
+		for i := 0; i < 4; i++ {
+			m := scen.MustDial(p, "vod")
+			mates = append(mates, m)
+			if _, _, err := m.Join(o.SID); err != nil {
+				panic(err)
+			}
+		}
+	}
+	if _, err := o.Barrier(); err != nil {
+		panic(err)
+	}
+	big := make([]byte, 10000)
+	ping := func(i int) []byte {
+		if joined {
+			return mustMarshal(&hagallpb.CustomMessage{Type: d.TCustom, Timestamp: now(), Body: big})
+		}
+		return mustMarshal(&hagallpb.Request{Type: hagallpb.MsgType_MSG_TYPE_PING_REQUEST, Timestamp: now(), RequestId: uint32(500000 + i)})
+	}
+	done := make(chan struct{})
+	go func() {
+		defer close(done)
+		for i := 0; i < before; i++ {
+			if o.SendRaw(ping(i)) != nil {
+				return
+			}
+		}
+		if joined {
+			o.SendRaw(mustMarshal(&hagallpb.Request{Type: hagallpb.MsgType_MSG_TYPE_PING_REQUEST, RequestId: 7})) // no timestamp: protocol error
+		} else {
+			o.SendRaw(mustMarshal(&hagallpb.EntityAddRequest{Type: d.TEntityAddReq, Timestamp: now(), RequestId: 7}))
+		}
+		for i := 0; i < after; i++ {
+			if o.SendRaw(ping(before+i)) != nil {
+				return
+			}
+		}
+	}()
+	select {
+	case <-done:
+	case <-time.After(20 * time.Second):
+		// the writer is blocked: the server stopped reading; judged below
+	}
+	if _, err := o.WaitClosed(); err != nil {
+		ff := wedgeFinding(p, t, "a flood of valid requests with one fatal request in the middle was sent; the server did not close the connection")
+		ff.Trigger = "flood/fatal-request-behind-a-full-queue"
+		return ff, ""
+	}
+	ok, err := scen.Departed(p, o, 6*time.Second)
+	if err != nil {
+		panic(err)
+	}
+	if !ok {
+		ff := wedgeFinding(p, t, "after a flood of valid requests with one fatal request in the middle the connection was closed but websocket.Handle never returned")
+		ff.Trigger = "flood/fatal-request-behind-a-full-queue"
+		return ff, ""
+	}
+	return nil, ""
+}
